@@ -79,6 +79,8 @@ def rotor_strata(rng, n):
            ("z-pi", (0.0, 0.0, 0.0, 1.0)), ("axis-x-90", (s2, s2, 0.0, 0.0)), ("axis-y-90", (s2, 0.0, s2, 0.0)),
            ("rational", (0.5, 0.5, 0.5, 0.5)), ("rational2", (0.6, 0.0, 0.8, 0.0)), ("rational3", (2 / 7, 3 / 7, 6 / 7, 0.0)),
            ("near-pole-1e-8", (1.0, 1e-8, 0.0, 0.0)), ("near-pole-1e-100", (1.0, 0.0, 1e-100, 0.0)),
+           ("near-pole-1e-9", (math.cos(0.3), 0.6e-9, 0.8e-9, math.sin(0.3))), ("near-pole-1e-11", (1.0, 0.0, 1e-11, 0.0)),
+           ("near-pole-1e-5", (1.0, 1e-5, -2e-5, 0.0)), ("near-antipole-1e-10", (0.6e-10, 0.6, 0.8, 0.8e-10)),
            ("near-pole-1e-160", (math.cos(0.2), 1e-160, 2e-160, math.sin(0.2))), ("near-pole-subnormal", (1.0, 5e-324, 0.0, 0.0)),
            ("near-antipole-1e-8", (1e-8, 1.0, 0.0, 0.0)), ("near-antipole-1e-100", (0.0, math.cos(1.1), math.sin(1.1), 1e-100)),
            ("near-antipole-subnormal", (0.0, 1.0, 0.0, 5e-324)), ("beta-pi/2", (s2 * math.cos(0.4), s2 * math.sin(0.1), s2 * math.cos(0.1), s2 * math.sin(0.4))),
